@@ -34,6 +34,7 @@ class Slicer:
         self.cls = cls
         self.cls_name = cls_name or (cls.name if cls else None)
         self.unknown_tests: list[ast.AST] = []
+        self.known: dict[str, bool] = {}  # boolean locals whose value is decided for this class (`is_mutate = isinstance(nd, Mutate)`)
 
     # three-valued evaluation of a test: True / False / residual ast
     def eval_test(self, test):
@@ -69,6 +70,8 @@ class Slicer:
             return rest[0] if len(rest) == 1 else ast.BoolOp(op=ast.Or(), values=rest)
         if isinstance(test, ast.NamedExpr):
             return test
+        if isinstance(test, ast.Name) and test.id in self.known:
+            return self.known[test.id]
         return test
 
     def _is_instance(self, names: list[str]) -> bool:
@@ -76,9 +79,46 @@ class Slicer:
             return any(self.cls.is_subclass_of(n) for n in names)
         return self.cls_name in names
 
+    def _specialise(self, st):
+        """conditional expressions whose test is decided for this class are replaced by the arm that is taken"""
+        slicer = self
+        hit = [n for n in ast.walk(st) if isinstance(n, ast.IfExp) and slicer.eval_test(n.test) in (True, False)]
+        if not hit:
+            return st
+        import copy as _copy
+
+        class T(ast.NodeTransformer):
+            def visit_IfExp(self, node):
+                self.generic_visit(node)
+                v = slicer.eval_test(node.test)
+                if v is True:
+                    return node.body
+                if v is False:
+                    return node.orelse
+                return node
+
+        new = T().visit(_copy.deepcopy(st))
+        ast.fix_missing_locations(new)
+        for par in ast.walk(new):
+            for ch in ast.iter_child_nodes(par):
+                ch._parent = par
+        new._parent = getattr(st, "_parent", None)
+        for a in ("_qualname", "_module"):
+            if hasattr(st, a):
+                setattr(new, a, getattr(st, a))
+        return new
+
     def slice(self, stmts) -> list:
         out = []
         for st in stmts:
+            if isinstance(st, ast.Assign) and len(st.targets) == 1 and isinstance(st.targets[0], ast.Name):
+                v = self.eval_test(st.value)
+                if v is True or v is False:
+                    self.known[st.targets[0].id] = v
+                else:
+                    self.known.pop(st.targets[0].id, None)
+            if not isinstance(st, (ast.If, ast.FunctionDef, ast.ClassDef)):
+                st = self._specialise(st)
             if isinstance(st, ast.If):
                 v = self.eval_test(st.test)
                 if v is True:
